@@ -6,7 +6,7 @@ Answer: `rust=<hex> c=<hex> snake=<hex> camel=<hex> pascal=<hex> shouty=<hex> va
         ` rcamel=<hex> rkw=<0|1> ckw=<0|1> rtemp=<0|1> ctemp=<0|1> rckw=<0|1> skw=<0|1> rpre=<0|1> rfn=<0|1>`   (rpre: rcamel is a prelude name the Rust templates use unqualified)
   rcamel = crates/rust `to_upper_camel_case`; rkw/ckw: the model's identifier is a Rust-2024 / C++23 keyword;
   rtemp/ctemp: the model's identifier can be bound by a generator-emitted local;
-  rckw: rcamel is a Rust keyword (`Self`); skw: the bare snake case (package-module position) is a Rust keyword.
+  rckw: rcamel is a Rust keyword (`Self`); skw: the package-module component `to_rust_ident(name_package_module ..)` of an unversioned package of that name is a Rust keyword.
   With implementation outputs supplied: TAB `spec=ok` | `spec=<rust-keyword>,<c-keyword>`: the spec tables
   (`IdentSpec.notKeyword`) evaluated on the implementation's identifiers. -/
 open Witverif.Text Witverif.Text.Ident Drivers
@@ -23,7 +23,7 @@ def handle (line : String) : String :=
   | some n =>
     let r := toRustIdent n
     let c := toCIdent n
-    let model := s!"rust={charsToHex r} c={charsToHex c} snake={charsToHex (Heck.snake n)} camel={charsToHex (upperCamel n)} pascal={charsToHex (upperCamel n)} shouty={charsToHex (shouty n)} valid={b01 (PkgSpec.validName n)} rcamel={charsToHex (toUpperCamelRust n)} rkw={b01 (RustKeywords.keywords2024.contains r)} ckw={b01 (CppKeywords.keywords23.contains c)} rtemp={b01 (clashesWithRustLocal r)} ctemp={b01 (clashesWithCppLocal c)} rckw={b01 (RustKeywords.keywords2024.contains (toUpperCamelRust n))} skw={b01 (RustKeywords.keywords2024.contains (Heck.snake n))} rpre={b01 (capturesPrelude n)} rfn={b01 (clashesWithGeneratedFn n)}"
+    let model := s!"rust={charsToHex r} c={charsToHex c} snake={charsToHex (Heck.snake n)} camel={charsToHex (upperCamel n)} pascal={charsToHex (upperCamel n)} shouty={charsToHex (shouty n)} valid={b01 (PkgSpec.validName n)} rcamel={charsToHex (toUpperCamelRust n)} rkw={b01 (RustKeywords.keywords2024.contains r)} ckw={b01 (CppKeywords.keywords23.contains c)} rtemp={b01 (clashesWithRustLocal r)} ctemp={b01 (clashesWithCppLocal c)} rckw={b01 (RustKeywords.keywords2024.contains (toUpperCamelRust n))} skw={b01 (RustKeywords.keywords2024.contains (toRustIdent (Heck.snake n)))} rpre={b01 (capturesPrelude n)} rfn={b01 (clashesWithGeneratedFn n)}"
     match parts with
     | [_, impl] =>
       let fs := impl.splitOn " "
